@@ -301,7 +301,7 @@ fn main() {
     let spec = vrun::spec_of(fixture::fx::SPEC_JSON);
     let model = Model::build(&spec).expect("fx fixture is collision-free");
     h.assume("the reference queue is fed with the error values observed at the queue's input (push_error), so the check does not depend on which number a particular syntax error gets; descriptions are the texts the library associates with those values, except 'Queue overflow', which the model supplies itself");
-    let depth: u32 = h.tier.pick(5, 6);
+    let depth: u32 = h.tier.pick(5, 7);
     let per_cap: u64 = (1..=depth).map(|l| (N_OPS as u64).pow(l)).sum();
     let total = per_cap * CAPS.len() as u64;
     h.check(
